@@ -718,7 +718,12 @@ impl DbInner {
 		let might_wait_because_the_queue_is_full = self.options.with_background_thread;
 		#[cfg(not(any(test, feature = "instrumentation")))]
 		let might_wait_because_the_queue_is_full = true;
-		if might_wait_because_the_queue_is_full && queue.bytes > MAX_COMMIT_QUEUE_BYTES {
+		// Do not wait once a background error is stored: the workers are gone and nobody
+		// would ever shrink the queue or notify again.
+		if might_wait_because_the_queue_is_full &&
+			queue.bytes > MAX_COMMIT_QUEUE_BYTES &&
+			self.bg_err.lock().is_none()
+		{
 			log::debug!(target: "parity-db", "Waiting, queue size={}", queue.bytes);
 			self.commit_queue_full_cv.wait(&mut queue);
 		}
@@ -1510,11 +1515,17 @@ impl DbInner {
 	fn store_err(&self, result: Result<()>) {
 		if let Err(e) = result {
 			log::warn!(target: "parity-db", "Background worker error: {}", e);
-			let mut err = self.bg_err.lock();
-			if err.is_none() {
-				*err = Some(Arc::new(e));
-				self.shutdown();
+			{
+				let mut err = self.bg_err.lock();
+				if err.is_none() {
+					*err = Some(Arc::new(e));
+					self.shutdown();
+				}
 			}
+			// Wake up throttled committers. The queue mutex is held so that a committer that
+			// has just tested `bg_err` and is about to wait cannot miss the notification
+			// (`bg_err` is released first: `commit_raw` takes the two locks in this order).
+			let _queue = self.commit_queue.lock();
 			self.commit_queue_full_cv.notify_all();
 		}
 	}
